@@ -262,6 +262,12 @@ def gen_ledger(rng, ntxn=10, with_queries=True, with_pad=True, start_year=2019, 
             '  Assets:Crypto   7 T-BILL @@ 693.07 USD',
             '  Assets:Crypto   0.00000001 A1 @ 123456789.00 USD',
             '  Assets:Cash',
+            f'{ed} * "AMAZON  MKTPLACE   PMTS" " espresso\tand  cake "',
+            '  Expenses:Food   3.00 USD',
+            '  Assets:Cash',
+            f'{ed} * "the same commodity with and without cost in one account"',
+            '  Assets:Crypto   1 BTC.X @ 1000.00 USD',
+            '  Assets:Cash  -1000.00 USD',
             f'{ed} custom "budget" Expenses:Food "monthly" 250.00 USD TRUE {ed}',
             f'{ed} note Assets:Épargne:Livret-A "same day, first"',
             f'{ed} note Assets:Épargne:Livret-A "same day, second"',
